@@ -349,7 +349,9 @@ def _clean_using_glob(
                 matches.remove(symlink_dir)
     # Now clean the rest
     for path in matches:
-        remove_dir_or_file(path)
+        if os.path.lexists(path):
+            # (may already have been removed along with a matched ancestor)
+            remove_dir_or_file(path)
 
 
 def get_install_targets_map(
